@@ -211,6 +211,11 @@ def run_tcp(case, J):
     inj = make(spec)
     obj, sock = build_tcp(subject)
     chunks = [bytes([65 + i]) * (i + 1) for i in range(pos + 1)]
+    server = None
+    if entry.startswith("server."):
+        server, _listen = D.server_on_double(tls=subject in TLS)
+        server.ixes[obj.ca] = obj
+        entry = {"server.serviceTxesAllIx": "serviceTxes", "server.serviceReceivesAllIx": "serviceReceives"}[entry]
     if entry in ("send", "serviceTxes"):
         sock.scripts["send"].push(*([D.FULL] * pos + [inj]))
         if entry == "send":
@@ -222,7 +227,7 @@ def run_tcp(case, J):
             for i in range(pos + 2):
                 obj.tx(b"m%d" % i)
             before = snapshot(obj, sock)
-            res, ex = call(obj.serviceTxes)
+            res, ex = call(server.serviceTxesAllIx if server is not None else obj.serviceTxes)
         if cat == "loss":
             if J.expect_no_raise(ex, "a connection-loss error on send"):
                 if entry == "send" and res != 0:
@@ -259,7 +264,7 @@ def run_tcp(case, J):
         rx_expected = b"".join(chunks[:pos])
     else:
         before = snapshot(obj, sock)
-        res, ex = call(obj.serviceReceives)
+        res, ex = call(server.serviceReceivesAllIx if server is not None else obj.serviceReceives)
         rx_expected = b"".join(chunks[:pos])
     if cat == "loss":
         if J.expect_no_raise(ex, "a connection-loss error on receive"):
@@ -553,6 +558,13 @@ def table(tier):
             for spec in faults_for(subject):
                 for pos in range(npos):
                     cases.append({"subject": subject, "entry": entry, "op": "send" if entry in ("send", "serviceTxes") else "recv",
+                                  "fault": spec, "pos": pos})
+    for subject in ("Incomer", "IncomerTls"):
+        # the same faults met through the server's own service calls over its table of accepted connections
+        for entry in ("server.serviceTxesAllIx", "server.serviceReceivesAllIx"):
+            for spec in faults_for(subject):
+                for pos in range(npos):
+                    cases.append({"subject": subject, "entry": entry, "op": "send" if "Txes" in entry else "recv",
                                   "fault": spec, "pos": pos})
     for subject in ("Client", "ClientTls"):
         for entry in ("connect", "serviceConnect"):
